@@ -201,6 +201,24 @@ def write_unit(u: Unit):
             u.cover(f"write.cover[{name}]", ps, lambda p: p.kind == "return")
 
 
+NAMES_REPLAY = lambda w: {"code": """
+from pyxel.outputs import ExposureOutputs
+out = ExposureOutputs(output_folder='x', save_data_to_file=[{'detector.image.array': ['fits', 'npy']}, {'detector.pixel.array': ['npy']}])
+VIOLATED, DETAIL = False, 'one distinct name per bucket, format and suffix'
+seen = {}
+for suffix in (None, 0, 7, '0.5', '0.7', 'a.b.c', """ + repr(w.get("suffix_text") or "run.1") + """):
+    names = [str(n) for n in out.build_filenames(filename_suffix=suffix)]
+    mid = '' if suffix is None else '_' + str(suffix)
+    want = ['detector_image' + mid + '.fits', 'detector_image' + mid + '.npy', 'detector_pixel' + mid + '.npy']
+    if names != want:
+        VIOLATED, DETAIL = True, f'suffix {suffix!r}: names {names} (expected {want})'; break
+    for n in names:
+        if n in seen and seen[n] != suffix:
+            VIOLATED, DETAIL = True, f'suffixes {seen[n]!r} and {suffix!r} give the same file name {n}'
+        seen[n] = suffix
+""", "expect": "build_filenames: detector_<bucket>[_<suffix>].<format>, distinct for distinct suffixes (dots in a text suffix kept)"}
+
+
 @unit("C19", "names")
 def names(u: Unit):
     fi = u.fn(f"{OU}::apply_run_number")
@@ -234,22 +252,25 @@ DETAIL = 'names for runs 0..24: ' + repr(got[:4]) + ' ...'
     # build_filenames: one distinct name per requested (bucket, format)
     fb = u.fn(f"{OO}::Outputs.build_filenames")
     oci = u.cls(f"{OO}::Outputs")
-    for suffix in (None, "sym"):
+    for suffix in (None, "sym", "text"):
         def setup_b(ex, suffix=suffix):
             cfgd = ex.st.alloc(HList([ex.st.alloc(HDict([(VStr("detector.image.array"), ex.st.alloc(HList([VStr("fits"), VStr("npy")])))])),
                                       ex.st.alloc(HDict([(VStr("detector.pixel.array"), ex.st.alloc(HList([VStr("npy")])))]))]))
             o = ex.st.alloc(HObj(oci, {"save_data_to_file": cfgd}))
-            return [o], {"filename_suffix": NONE if suffix is None else VInt(z3.Int("suffix"))}
+            if suffix == "text":      # the suffix may be any text (e.g. "0.5": dots included) without a path separator
+                ex.st.assume(z3.And(z3.Not(z3.Contains(z3.String("suffix_text"), z3.StringVal("/"))), z3.Length(z3.String("suffix_text")) > 0))
+            return [o], {"filename_suffix": NONE if suffix is None else (VInt(z3.Int("suffix")) if suffix == "sym" else VStr(z3.String("suffix_text")))}
         for p in u.paths(fb, setup_b, cfg, label=f"build_filenames[suffix={suffix}]"):
             if p.kind != "return":
                 u.oblige(p, f"build.names[{suffix}].no_raise", False, {}, rp)
                 continue
             texts = [FSM.path_text(x) for x in (p.ex.try_list(p.value) or [])]
-            mid = z3.StringVal("") if suffix is None else z3.Concat(z3.StringVal("_"), z3.IntToStr(z3.Int("suffix")))
+            mid = z3.StringVal("") if suffix is None else z3.Concat(z3.StringVal("_"), z3.IntToStr(z3.Int("suffix")) if suffix == "sym" else z3.String("suffix_text"))
             want = [z3.Concat(z3.StringVal("detector_image"), mid, z3.StringVal(".fits")), z3.Concat(z3.StringVal("detector_image"), mid, z3.StringVal(".npy")),
                     z3.Concat(z3.StringVal("detector_pixel"), mid, z3.StringVal(".npy"))]
             ok = len(texts) == 3
-            u.oblige(p, f"build.names[suffix={suffix}]", z3.And(zb(ok), *([z3.simplify(a) == z3.simplify(b) for a, b in zip(texts, want)] if ok else [])), {}, rp, hyps=[z3.Int("suffix") >= 0])
+            u.oblige(p, f"build.names[suffix={suffix}]", z3.And(zb(ok), *([z3.simplify(a) == z3.simplify(b) for a, b in zip(texts, want)] if ok else [])), {"suffix_text": z3.String("suffix_text")}, NAMES_REPLAY,
+                     hyps=[z3.Int("suffix") >= 0])
 
 
 @unit("C19", "complete")
@@ -626,4 +647,4 @@ def dir_per_run(u: Unit):
         u.static("dir.per_run.run_mode_creates_the_folder_whenever_outputs_are_given", ok, rm.qualname, detail, replay=RUNDIR_REPLAY)
 
 
-STANDIN = {r"dir\.per_run": RUNDIR_REPLAY}
+STANDIN = {r"dir\.per_run": RUNDIR_REPLAY, r"names|build\.names": NAMES_REPLAY}
